@@ -26,12 +26,15 @@ Inductive case :=
    listener (scan path) *)
 | Paths (id : N) (m : mesh) (svcs : list service) (vss : list vsvc) (cfg : string)
         (ls_fast ls_scan : list listener)
-        (obs_fast obs_scan : list olistener * list osvc).
+        (obs_fast obs_scan : list olistener * list osvc)
+(* PushContext.destinationRule(proxy namespace, service): the "from" names of every consolidated rule returned *)
+| DRule (id : N) (m : mesh) (drs : list drule) (proxy_ns svc_ns svc_host : string)
+        (obs : list (list (string * N))).
 
 Definition case_id c :=
   match c with
   | HostAlg id _ _ _ _ => id | Vis id _ _ _ _ _ => id | Index id _ _ _ _ _ => id
-  | Scope id _ _ _ _ _ _ _ _ _ _ => id | Paths id _ _ _ _ _ _ _ _ => id
+  | Scope id _ _ _ _ _ _ _ _ _ _ => id | Paths id _ _ _ _ _ _ _ _ => id | DRule id _ _ _ _ _ _ => id
   end.
 
 (* ---------------------------------------------------------------- canonical forms *)
@@ -52,10 +55,6 @@ Definition vsid_eqb (a b : string * N) : bool := String.eqb (fst a) (fst b) && N
 Definition ol_eqb (a b : olistener) : bool :=
   list_eqb o_eqb (fst a) (fst b) && list_eqb vsid_eqb (snd a) (snd b).
 
-Definition set_k3 (m : mesh) (b : bool) : mesh :=
-  mkMesh (m_svc_default m) (m_vs_default m) (m_dr_default m) (m_apply_sidecars m) (m_root m)
-         (f_unified m) (f_pick_best m) b.
-
 Definition w_obs (w : wrapper) : olistener :=
   (map o_of (w_services w), map (fun v => (v_ns v, v_name v)) (w_vs w)).
 
@@ -67,8 +66,6 @@ Definition listeners_ok (m : mesh) svcs vss cfg (ls : list listener) (obs_ls : l
   let ws := scope_wrappers m svcs vss cfg ls in
   list_eqb ol_eqb (map w_obs ws) obs_ls &&
   list_eqb o_eqb (scope_canon (collect_imported m (sort_services svcs) cfg (hint_of obs_scope) ws)) obs_scope.
-
-Definition either_k3 (f : mesh -> bool) (m : mesh) : bool := f (set_k3 m false) || f (set_k3 m true).
 
 Definition model_ok (c : case) : bool :=
   match c with
@@ -86,11 +83,12 @@ Definition model_ok (c : case) : bool :=
       else
         let pick := pick_sidecar m scs cfg labels in
         N.eqb (match pick with Some s => sc_name s | None => 0%N end) osc &&
-        either_k3 (fun m' => listeners_ok m' svcs vss cfg
-                               (match pick with Some s => sc_egress s | None => [] end) ols oscope) m
+        listeners_ok m svcs vss cfg (match pick with Some s => sc_egress s | None => [] end) ols oscope
   | Paths _ m svcs vss cfg lf ls of_ os_ =>
-      either_k3 (fun m' => listeners_ok m' svcs vss cfg lf (fst of_) (snd of_)) m &&
-      either_k3 (fun m' => listeners_ok m' svcs vss cfg ls (fst os_) (snd os_)) m
+      listeners_ok m svcs vss cfg lf (fst of_) (snd of_) &&
+      listeners_ok m svcs vss cfg ls (fst os_) (snd os_)
+  | DRule _ m drs p sn sh obs =>
+      list_eqb (list_eqb vsid_eqb) (map md_from (destination_rule m drs p sn sh)) obs
   end.
 
 (* ---------------------------------------------------------------- property oracle on observed outputs *)
@@ -121,10 +119,13 @@ Definition complete_obs (m : mesh) (svcs : list service) cfg (ls : list listener
     existsb (fun o => String.eqb (o_host o) (s_host s)) obs) svcs.
 
 (* per-listener lists only contain visible services imported by that listener's hosts *)
-Definition listeners_obs (m : mesh) svcs cfg (ls : list listener) (ols : list olistener) : bool :=
+Definition listeners_obs (m : mesh) svcs (vss : list vsvc) cfg (ls : list listener) (ols : list olistener) : bool :=
   Nat.eqb (List.length ls) (List.length ols) &&
   forallb (fun '(l, ol) => forallb (fun o => o_visible m svcs cfg o &&
-                                             host_imports cfg (l_hosts l) (o_host o) (o_ns o)) (fst ol))
+                                             host_imports cfg (l_hosts l) (o_host o) (o_ns o)) (fst ol) &&
+                           (* only VirtualServices exported to cfg are attached *)
+                           forallb (fun id => existsb (fun v => vsid_eqb id (v_ns v, v_name v) &&
+                                                                  vs_visible_spec m cfg v) vss) (snd ol))
           (combine ls ols).
 
 Definition same_set (a b : list osvc) : bool :=
@@ -156,11 +157,16 @@ Definition prop_ok (c : case) : bool :=
                     (match find (fun s => N.eqb (sc_name s) osc) scs with Some s => sc_egress s | None => [] end) in
         negb (real_ns cfg && forallb (wf_service m) svcs) ||
         no_leak_obs m svcs vss cfg ls oscope && complete_obs m svcs cfg ls oscope &&
-        listeners_obs m svcs cfg ls ols
+        listeners_obs m svcs vss cfg ls ols
   | Paths _ m svcs vss cfg lf ls of_ os_ =>
       Nat.eqb (List.length (fst of_)) (List.length (fst os_)) &&
       forallb (fun '(a, b) => same_set (fst a) (fst b)) (combine (fst of_) (fst os_)) &&
       list_eqb o_eqb (snd of_) (snd os_)
+  | DRule _ m drs p sn sh obs =>
+      (* every rule that shapes the result is exported to the proxy namespace and covers the hostname *)
+      negb (real_ns p) ||
+      forallb (forallb (fun id => existsb (fun d => vsid_eqb id (d_ns d, d_name d) &&
+                                                   dr_visible_spec m d p && subset_of sh (d_host d)) drs)) obs
   end.
 
 Definition mismatches := check_all case_id model_ok prop_ok.
